@@ -216,6 +216,10 @@ func exec(op string) vlib.Res {
 		return execDirty()
 	case "pool inspect":
 		return execInspect()
+	case "pool own":
+		return execOwn(f[2])
+	case "pool overlap":
+		return execOverlap(f[2], vlib.AtoU64(f[3]), vlib.Atoi(f[4]), vlib.Atoi(f[5]))
 	case "conc run":
 		return execConc(vlib.AtoU64(f[2]), vlib.Atoi(f[3]), vlib.Atoi(f[4]))
 	}
@@ -833,6 +837,8 @@ func gen(r *vlib.R, n int, tier string, emit func(string)) {
 	for i := 0; i < 100; i++ {
 		e(fmt.Sprintf("opt ttl %08x %d", uint32(r.U64()), r.Intn(4096)))
 	}
+	// ownership of the pooled state across every way a pack can end
+	genOwn(r, tier, e)
 	// messages
 	for count < n {
 		seed := r.U64() % 1000000007
@@ -896,7 +902,13 @@ func facts() map[string]any {
 			lib = append(lib, 99999)
 		}
 	}
+	own := ownFacts()
 	return map[string]any{
+		"puts_after_ok":                  own["puts_after_ok"],
+		"puts_after_err":                 own["puts_after_err"],
+		"puts_after_panic":               own["puts_after_panic"],
+		"puts_after_fail":                own["puts_after_fail"],
+		"puts_after_werr":                own["puts_after_werr"],
 		"pack_buffer_size":               wire.VerifPackBufferSize,
 		"header_len":                     wire.VerifHeaderLen,
 		"max_pooled_compression_entries": wire.VerifMaxPooledCompressionEntries,
